@@ -398,7 +398,7 @@ impl<R: Reg> Interp<R> {
                 let ids = R::extend(&mut s.real, mask, order, mode, &rows);
                 let sids = s.shadow.as_mut().map(|sh| R::extend(sh, mask, order, mode, &rows));
                 if ids.len() != expect {
-                    fail!(self, &["C01"], "extend-count", "extend of a batch with {expect} rows (shape {mask:#b}) returned {} identifiers", ids.len());
+                    fail!(self, &["C01", "C02"], "extend-count", "extend of a batch with {expect} rows (shape {mask:#b}) returned {} identifiers", ids.len());
                 }
                 if let Some(sids) = sids {
                     if expect > 0 {
